@@ -672,21 +672,24 @@ PROPS = {
         assumptions=OS_ASSUMPTIONS,
     ),
     "C06": dict(
-        theorems=["c06_rejected_record_noop", "c06_err_is_noop", "c06_rejected_call_noop",
+        modules=["C06", "C06Sys"],
+        theorems=['c06_settle_idempotent', 'c06_step_settled', 'c06_reachable_settled', 'c06_sys_rejected_is_identity', 'c06_sys_rejected_single', 'c06_sys_rejected_is_identity_reachable', 'c06_rejected_invisible_forever', 'c06_rejected_invisible_in_history', 'c06_sys_batch_rejected_prefix', 'c06_same_verdict', 'c06_never_rejected', 'c06_sys_same_verdict', 'c06_sys_same_verdict_csys', 'c06_sys_same_verdict_sysRef', 'c06_sys_same_verdict_reachable', 'c06_sys_same_verdict_c01', 'c06_sys_batch_same_verdict'] + ["c06_rejected_record_noop", "c06_err_is_noop", "c06_rejected_call_noop",
                   "c06_batch_rejected_entry_noop", "c06_spec_rejects_vote", "c06_spec_rejects_commit"],
         gen=scripts_c06, project=proj_c06, footprint=footprint_c06, oracle=oracle_c06,
         explanation="a rejected call is a no-op on the whole model state",
         assumptions=OS_ASSUMPTIONS,
     ),
     "C16": dict(
-        theorems=["c16_call_no_panic_partial", "c16_fresh_panicFree", "c16_history_no_panic_partial",
+        modules=["C16", "C16Read"],
+        theorems=['c16_lookup_trichotomy', 'c16_read_no_panic_of_inv', 'c16_read_no_panic_reachable', 'c16_read_no_panic_c07', 'c16_read_no_panic_cycles', 'c16_open_no_panic_of_inv', 'c16_open_no_panic_clean', 'c16_open_no_panic_of_small', 'c16_open_no_panic_reachable', 'c16_open_no_panic_history'] + ["c16_call_no_panic_partial", "c16_fresh_panicFree", "c16_history_no_panic_partial",
                   "c16_read_inverted_empty", "c16_truncate_zero_is_error", "c16_witness_u64_max"],
         gen=scripts_c16, project=proj_c16, oracle=oracle_c16,
         explanation="no panic branch of the checked-arithmetic model is reachable",
         assumptions=OS_ASSUMPTIONS + ["harness built with overflow-checks and debug-assertions on"],
     ),
     "C15": dict(
-        theorems=["c15_accounting_exact", "c15_over_limit_only_pinned", "c15_drained"],
+        modules=["C15", "C15Restart"],
+        theorems=['c15_restart_step', 'c15_after_restart', 'c15_accounting_exact_with_restarts', 'c15_accounting_exact_every_point'] + ["c15_accounting_exact", "c15_over_limit_only_pinned", "c15_drained"],
         gen=scripts_c15, project=proj_c15, oracle=oracle_c15,
         explanation="cache accounting invariant",
         assumptions=OS_ASSUMPTIONS,
